@@ -551,21 +551,37 @@ Proof.
   split; [vm_compute; reflexivity|]. split; vm_compute; reflexivity.
 Qed.
 
-(** C19_consumers_env_exact_refuted.  Without the restriction to plain patterns (1) is false of the
-    faithful model: the env list is joined with "," and read back by a csv reader, so ONE env pattern
-    "a,b" (a table called a,b) becomes the TWO patterns a and b, and the table a,b is not excluded;
-    the flag route can say it (--exclude '"a,b"').  Reproduced on the real CLI by the consumers stage
-    (finding C19-env-exclude-comma-resplit). *)
-Theorem C19_consumers_env_exact_refuted :
+(** C19_consumers_env_exact (was C19_consumers_env_exact_refuted; fix C19-env-exclude-csv: setSchemaEnvFlags writes the env list
+    as ONE CSV record -- cmdapi.joinCSV -- instead of joining it with ",").  For every command that accepts --exclude and
+    EVERY env list [ps] (patterns may hold commas, double quotes, leading spaces; only CR / LF, which the pattern splitter
+    rejects anyway, are outside) other than the empty list and the list of one empty pattern: the value of flags.exclude on
+    the env route is [ps] itself -- every pattern whole, in order.  (The two excepted lists set nothing: flags.exclude = [].) *)
+Theorem C19_consumers_env_exact :
+  forall (c : command) (ps : list bytes),
+    has_exclude_flag c = true -> no_crlf ps -> ps <> [] -> ps <> [[]] ->
+    effective (mkInv c [] (Some ps)) = EOk ps.
+Proof. exact effective_env_exact. Qed.
+Print Assumptions C19_consumers_env_exact.
+
+(** non-vacuity = the former witness: the env pattern "a,b" stays ONE pattern; so do a pattern holding a double quote and one with a leading space *)
+Example C19_consumers_env_exact_nonvacuous :
+  effective (mkInv CApply [] (Some [[97;44;98]%N])) = EOk [[97;44;98]%N]
+  /\ effective (mkInv CDiff [] (Some [[116;51]; [97;34;98]; [32;120]]%N)) = EOk [[116;51]; [97;34;98]; [32;120]]%N
+  /\ effective (mkInv CApply [] (Some [[]])) = EOk [].
+Proof. split; [vm_compute; reflexivity|]. split; vm_compute; reflexivity. Qed.
+
+(** the behaviour BEFORE the fix, kept for the record: the list joined with "," and read back by the csv reader of the
+    flag -- ONE env pattern "a,b" became the TWO patterns a and b *)
+Theorem C19_consumers_env_exact_before_fix :
   exists ps : list bytes,
-    effective (mkInv CApply [] (Some ps)) = EOk [[97]; [98]]%N
-    /\ effective (mkInv CApply [] (Some ps)) <> EOk ps
-    /\ effective (mkInv CApply [[34;97;44;98;34]%N] None) = EOk ps.
+    effective_before_fix (mkInv CApply [] (Some ps)) = EOk [[97]; [98]]%N
+    /\ effective_before_fix (mkInv CApply [] (Some ps)) <> EOk ps
+    /\ effective (mkInv CApply [] (Some ps)) = EOk ps.
 Proof.
   exists [[97;44;98]%N]. split; [vm_compute; reflexivity|]. split; [vm_compute; discriminate|].
   vm_compute; reflexivity.
 Qed.
-Print Assumptions C19_consumers_env_exact_refuted.
+Print Assumptions C19_consumers_env_exact_before_fix.
 
 (** C19_consumers_flag_hides_env: an [--exclude] on the command line (any values, plain or not) makes the
     env list irrelevant -- it is replaced, not merged; without --env the list is the flags' alone; a
@@ -695,8 +711,8 @@ Proof. repeat split; vm_compute; reflexivity. Qed.
     ones (a [filter]: kept = unchanged, in order):
       a view is removed by a two-element chain whose second element admits [view] and matches its name
       (a three-element chain filters its columns / triggers and keeps it);
-      a function / procedure by a chain of two OR THREE elements whose second element admits
-      [function] / [procedure] and matches its name ([routine_hit]).
+      a function / procedure by a two-element chain whose second element admits [function] / [procedure] and
+      matches its name ([routine_hit]; since fix C19-exclude-routine-child-pattern a three-element chain leaves it alone).
     Not in this statement (tied and judged by the oracle of the excludex stage only): the children of a view,
     table triggers, schema and realm objects; that the call succeeds when every glob is well formed is proved
     for the table part only (C19_exclude_exact_except). *)
@@ -721,24 +737,44 @@ Example C19_excludeX_names_nonvacuous :
     /\ map names_of (xr_schemas r') = [([109]%N, [[118]%N], [[102]%N], [])].
 Proof. eexists. split; vm_compute; reflexivity. Qed.
 
-(** C19_excludeX_routine_child_pattern_refuted.  With [routine_hit_strict] (only a two-element chain removes a
-    function / procedure -- what the pattern forms schema.table.child of sql/schema/inspect.go suggest) the statement
-    is false of the faithful model: the pattern "m.users.i" -- column i of TABLE users -- also removes the FUNCTION
-    and the PROCEDURE called users, which match no pattern addressed to them.  Reproduced on the real
-    schema.ExcludeRealm by the excludex stage (finding C19-exclude-child-pattern-removes-routine). *)
-Theorem C19_excludeX_routine_child_pattern_refuted :
-  exists (r r' : xrealm) (patterns : list bytes) (G : list (list bytes)),
-    split patterns = EOk G /\ ExcludeRealmX (true, true) r patterns = EOk r'
-    /\ map (fun s => xs_funcs s) (xr_schemas r')
-       <> map (fun s => filter (fun n => negb (routine_hit_strict typeFn G (xs_name s) n)) (xs_funcs s)) (xr_schemas r)
-    /\ map (fun s => xs_funcs s) (xr_schemas r') = [[[102]%N]]
-    /\ map (fun s => xs_procs s) (xr_schemas r') = [[]].
+(** C19_excludeX_child_patterns_keep_routines (was C19_excludeX_routine_child_pattern_refuted; fix
+    C19-exclude-routine-child-pattern: excludeS filters functions / procedures only for two-component patterns).
+    For every realm, link mode and pattern list made of three-element chains only (schema.table.child patterns): whenever
+    the call succeeds, every schema survives with ALL its functions and procedures -- a pattern addressed to a child of
+    table users no longer removes the function / procedure called users.  (Two-element chains: C19_excludeX_names_ref,
+    whose [routine_hit] is now the two-element form.) *)
+Theorem C19_excludeX_child_patterns_keep_routines :
+  forall (link : bool * bool) (r r' : xrealm) (patterns : list bytes) (G : list (list bytes)),
+    patterns <> [] -> split patterns = EOk G -> Forall (fun g => List.length g = 3) G ->
+    ExcludeRealmX link r patterns = EOk r' ->
+    map (fun s => (xs_name s, xs_funcs s, xs_procs s)) (xr_schemas r')
+    = map (fun s => (xs_name s, xs_funcs s, xs_procs s)) (xr_schemas r).
+Proof. intros link r r' patterns G. exact (child_patterns_keep_routines link r patterns G r'). Qed.
+Print Assumptions C19_excludeX_child_patterns_keep_routines.
+
+(** non-vacuity = the former witness: "m.users.i" removes column i of table users and keeps function and procedure users *)
+Example C19_excludeX_child_patterns_nonvacuous :
+  exists r' G, split [([109;46]%N ++ xex_users ++ [46;105]%N)%list] = EOk G /\ Forall (fun g => List.length g = 3) G
+    /\ ExcludeRealmX (true, true) xex_realm [([109;46]%N ++ xex_users ++ [46;105]%N)%list] = EOk r'
+    /\ map (fun s => xs_funcs s) (xr_schemas r') = [[xex_users; [102]%N]]
+    /\ map (fun s => xs_procs s) (xr_schemas r') = [[xex_users]]
+    /\ proj_realm r' = [mkSchema [109]%N [mkTable xex_users false false [] None [] [] []]].
 Proof.
-  exists xex_realm. eexists. exists [([109;46]%N ++ xex_users ++ [46;105]%N)%list]. eexists.
-  split; [vm_compute; reflexivity|]. split; [vm_compute; reflexivity|].
-  split; [vm_compute; discriminate|]. split; vm_compute; reflexivity.
+  eexists. eexists. split; [vm_compute; reflexivity|]. split; [repeat constructor|].
+  split; [vm_compute; reflexivity|]. repeat split; vm_compute; reflexivity.
 Qed.
-Print Assumptions C19_excludeX_routine_child_pattern_refuted.
+
+(** the behaviour BEFORE the fix, kept for the record: the function / procedure filters ran for every glob length, so
+    the second element users of the three-element glob [users; i] removed the function called users *)
+Theorem C19_excludeX_routine_child_pattern_before_fix :
+  exists (g1 : bytes) (gtl : list bytes) (funcs : list bytes),
+    gtl <> [] /\ routines_before_fix typeFn g1 gtl funcs = EOk [[102]%N]
+    /\ routines_after_fix typeFn g1 gtl funcs = EOk funcs /\ funcs = [xex_users; [102]%N].
+Proof.
+  exists xex_users, [[105]%N], [xex_users; [102]%N].
+  split; [discriminate|]. split; [vm_compute; reflexivity|]. split; vm_compute; reflexivity.
+Qed.
+Print Assumptions C19_excludeX_routine_child_pattern_before_fix.
 
 (** C19_excludeX_tables_conservative.  The table part of the extended model IS the model of Excl/Exclude.v: for every
     realm with views, functions, procedures, objects and triggers, link mode and pattern list, if ExcludeRealm
